@@ -126,11 +126,13 @@ fn rw_body<const WRITE: bool>() {
 }
 #[kani::proof]
 #[kani::stub(vmm_sys_util::ioctl::ioctl_with_ref, ioctl_with_ref_stub)]
+#[kani::stub(kani::rustc_intrinsics::offset, wrapping_offset_model)]
 fn ondemand_write() {
     rw_body::<true>()
 }
 #[kani::proof]
 #[kani::stub(vmm_sys_util::ioctl::ioctl_with_ref, ioctl_with_ref_stub)]
+#[kani::stub(kani::rustc_intrinsics::offset, wrapping_offset_model)]
 fn ondemand_read() {
     rw_body::<false>()
 }
@@ -138,6 +140,7 @@ fn ondemand_read() {
 /// whole-object write (u64) and typed-reference store through the on-demand region
 #[kani::proof]
 #[kani::stub(vmm_sys_util::ioctl::ioctl_with_ref, ioctl_with_ref_stub)]
+#[kani::stub(kani::rustc_intrinsics::offset, wrapping_offset_model)]
 fn ondemand_obj() {
     setup!(e, reg);
     let off: usize = kani::any();
@@ -176,6 +179,7 @@ fn ondemand_obj() {
 /// element array (u16) copy_from: the guard - hence the window - must span the whole array in BYTES
 #[kani::proof]
 #[kani::stub(vmm_sys_util::ioctl::ioctl_with_ref, ioctl_with_ref_stub)]
+#[kani::stub(kani::rustc_intrinsics::offset, wrapping_offset_model)]
 fn ondemand_array_copy() {
     setup!(e, reg);
     let off: usize = kani::any();
@@ -202,6 +206,7 @@ fn ondemand_array_copy() {
 /// mapped at all - recorded as a known finding (the dereference fails under Kani; no window is ever requested)
 #[kani::proof]
 #[kani::stub(vmm_sys_util::ioctl::ioctl_with_ref, ioctl_with_ref_stub)]
+#[kani::stub(kani::rustc_intrinsics::offset, wrapping_offset_model)]
 fn ondemand_atomic_store() {
     setup!(e, reg);
     let off: usize = kani::any();
@@ -217,5 +222,37 @@ fn ondemand_atomic_store() {
     leak(r);
     // the property demands a temporary mapping covering the 4 bytes
     check_window(&e, off, 4, true);
+    core::mem::forget(reg);
+}
+
+/// Replacement for Kani's model of the `offset` intrinsic (`ptr.add/offset`): plain wrapping address arithmetic without
+/// the "same allocation" check.  Needed because on-demand regions compute `NULL.add(offset)` (the UB-class finding):
+/// Kani's model cuts every path after such an add, which would make all harnesses below vacuous for offsets != 0.
+/// With this stub the x17 harnesses decide the window arithmetic UNDER THE ASSUMPTION that pointer addition on the
+/// pseudo-pointers behaves as integer addition (as it does on real targets); Kani's own out-of-bounds `add` checks are
+/// thereby off in these harnesses - dereferences are still checked.
+pub fn wrapping_offset_model<T, P: Copy, O: Copy>(ptr: P, offset: O) -> P {
+    assert!(core::mem::size_of::<P>() == 8 && core::mem::size_of::<O>() == 8);
+    // SAFETY: P is a thin raw pointer (*const T / *mut T), O is isize or usize
+    unsafe {
+        let p: *const u8 = core::mem::transmute_copy(&ptr);
+        let o: isize = core::mem::transmute_copy(&offset);
+        let q = p.wrapping_offset(o.wrapping_mul(core::mem::size_of::<T>() as isize));
+        core::mem::transmute_copy(&q)
+    }
+}
+
+
+/// The UB-class finding itself, kept observable: with Kani's own model of `ptr.add` (no stub), slicing an on-demand
+/// region at a non-zero offset computes NULL.add(offset).  Recorded in known_findings.json (UB-xen-ondemand-null-add).
+#[kani::proof]
+#[kani::stub(vmm_sys_util::ioctl::ioctl_with_ref, ioctl_with_ref_stub)]
+fn ub_null_base_add() {
+    setup!(e, reg);
+    let off: usize = kani::any();
+    kani::assume(off >= 1 && off < REGION);
+    kani::cover!(off == 1); // reached the slicing call
+    let r = reg.get_slice(off, 1);
+    leak(r);
     core::mem::forget(reg);
 }
